@@ -1,8 +1,8 @@
 CONSTANTS
   Species = {1, 2, 3}
-  NRules = 2
+  NRules = 1
   ProcessedOnly = FALSE
-  MaxProd = 1
+  MaxProd = 3
 SPECIFICATION MSpec
 INVARIANT Within
 INVARIANT Complete
